@@ -1418,33 +1418,46 @@ pub fn check_live(cx: &mut Ctx, pm: PMask, mut expect: Vec<u32>, leak_ok: &[u32]
     let live = pl::live_ids();
     expect.sort_unstable();
     expect.dedup();
+    let mut extra: Vec<u32> = live.iter().copied().filter(|id| expect.binary_search(id).is_err() && !leak_ok.contains(id)).collect();
+    let mut missing: Vec<u32> = expect.iter().copied().filter(|id| live.binary_search(id).is_err()).collect();
+    // A KEY object that is alive in place of an equal key object that should be (same code, possibly another
+    // tag) is not an ownership defect - every object is still in exactly one place and destroyed exactly once -
+    // but the wrong one of two equal keys was kept: stored-key identity (C12).
+    let mut swapped: Vec<(u32, u32)> = Vec::new();
+    extra.retain(|x| {
+        let Some(ox) = pl::obj(*x) else { return true };
+        if !ox.is_key {
+            return true;
+        }
+        if let Some(pos) = missing.iter().position(|m| pl::obj(*m).is_some_and(|om| om.is_key && om.code == ox.code)) {
+            swapped.push((*x, missing.remove(pos)));
+            false
+        } else {
+            true
+        }
+    });
     let mut ok = true;
-    for id in &live {
-        if expect.binary_search(id).is_err() && !leak_ok.contains(id) {
-            ok = false;
-            let o = pl::obj(*id).unwrap();
-            cx.violate(
-                pm,
-                format!(
-                    "{when}: {} object #{id} (code {}, tag {}) is still alive but is neither stored nor held (leak or misplaced)",
-                    if o.is_key { "key" } else { "value" },
-                    o.code,
-                    o.tag
-                ),
-            );
-            break;
-        }
+    if let Some((x, m)) = swapped.first() {
+        ok = false;
+        cx.violate(C12, format!("{when}: key object #{x} is alive where the equal key object #{m} should be (the wrong one of two equal keys was kept)"));
     }
-    for id in &expect {
-        if live.binary_search(id).is_err() {
-            ok = false;
-            let o = pl::obj(*id);
-            cx.violate(
-                pm,
-                format!("{when}: object #{id} {o:?} should be alive (stored or held) but was destroyed"),
-            );
-            break;
-        }
+    if let Some(id) = extra.first() {
+        ok = false;
+        let o = pl::obj(*id).unwrap();
+        cx.violate(
+            pm,
+            format!(
+                "{when}: {} object #{id} (code {}, tag {}) is still alive but is neither stored nor held (leak or misplaced)",
+                if o.is_key { "key" } else { "value" },
+                o.code,
+                o.tag
+            ),
+        );
+    }
+    if let Some(id) = missing.first() {
+        ok = false;
+        let o = pl::obj(*id);
+        cx.violate(pm, format!("{when}: object #{id} {o:?} should be alive (stored or held) but was destroyed"));
     }
     if ok {
         cx.check(pm, true, String::new);
